@@ -63,6 +63,12 @@ func processCallback[Type any, Status StatusType](
 		return nil
 	}
 
+	if wr.RunState.Stopped() {
+		// A paused, cancelled or data-deleted run must be left alone: calling back into it would move a stopped run on
+		// and return it to RunStateRunning. Step consumers and timeouts skip stopped runs in the same way.
+		return nil
+	}
+
 	run, err := buildRun[Type, Status](store, wr)
 	if err != nil {
 		return err
